@@ -196,7 +196,7 @@ def run(ctx):
         ctype, crit, val = rf.get('ctype'), rf.get('crit'), rf.get('val')
         def inner(t):
             """ordinals read from the per-control component cursor (whose base is itself an element of the control list)"""
-            return sorted({x[3] for x in absx.leaves(t, lambda x: x[0] == 'nth') if absx.leaves(x[1], lambda y: y[0] == 'nth')})
+            return sorted({x[3] for x in absx.leaves(t, lambda x: x[0] == 'nth') if absx.leaves(x[1], lambda y: y[0] in ('nth', 'elem'))})
         okt = inner(ctype) == [0] and 'from_utf8' in calls_in(ctype) and 'expect_primitive' in calls_in(ctype)
         def second_pc(pred):
             return any(t and pred(a) for a, t in o.st.pc)
